@@ -249,16 +249,39 @@ func (s *c25) Done(w *World) bool {
 func (s *c25) Heal(w *World)                 {}
 func (s *c25) Invariant(w *World) *Violation { return nil }
 
+var bubbleRe = regexp.MustCompile(`synctest bubble (\d+)`)
+
 var frameRe = regexp.MustCompile(`(?m)^github\.com/ipfs/go-graphsync/(\S+)\(`)
 
 // blockedSite finds the goroutine running the given function and names the
 // go-graphsync frames above it (innermost first), for finding signatures.
 func blockedSite(root string) string {
+	// goroutines stalled for good in earlier runs of this process are still there: take the whole
+	// dump (however large) and look only at the goroutines of the bubble this run lives in
+	me := make([]byte, 256)
+	me = me[:runtime.Stack(me, false)]
+	bubble := ""
+	if m := bubbleRe.FindSubmatch(me); m != nil {
+		bubble = "synctest bubble " + string(m[1])
+	}
 	buf := make([]byte, 8<<20)
 	n := runtime.Stack(buf, true)
+	for n == len(buf) && len(buf) < 1<<30 {
+		buf = make([]byte, 2*len(buf))
+		n = runtime.Stack(buf, true)
+	}
 	best := "not-found"
 	// every node has such a loop; the interesting one is the one that is not idle
 	for _, g := range strings.Split(string(buf[:n]), "\n\n") {
+		if bubble != "" {
+			head := g
+			if i := strings.Index(g, "\n"); i >= 0 {
+				head = g[:i]
+			}
+			if !strings.Contains(head, bubble+"]") && !strings.Contains(head, bubble+",") {
+				continue
+			}
+		}
 		if !strings.Contains(g, root) || !strings.Contains(g, "synctest bubble") {
 			continue
 		}
